@@ -14,6 +14,7 @@ def step_strategy(big_payloads=False, faults=True):
         st.sampled_from([False] * 9 + [True]) if faults else st.just(False),
         st.sampled_from([0, 0, 7, 70000] if big_payloads else [0, 0, 7]),
         st.sampled_from([0, 3]),
+        st.sampled_from([False, False, True]),  # the script ignores SIGTERM
     )
     exit_ = st.tuples(st.just("exit"), st.integers(0, 5),
                       st.sampled_from([0, 0, 0, 0, 1, 2, 127, -15]))
@@ -31,9 +32,16 @@ def history(draw, max_steps=30, big_payloads=False, burst=True, faults=True):
     cores = draw(st.sampled_from([1, 1, 2, 2, 3, 4]))
     steps = draw(st.lists(step_strategy(big_payloads, faults), min_size=1, max_size=max_steps))
     steps = [list(s) for s in steps]
+    if faults and draw(st.sampled_from([False, False, False, True])):
+        # a cancel that lands inside the kill sequence of a task that ran over its time limit
+        k = draw(st.integers(0, len(steps)))
+        immune = draw(st.booleans())
+        scen = [["submit", [], 1, False, 0, 0, immune], ["advance", draw(st.sampled_from([1, 1.5, 5]))],
+                ["cancel", draw(st.integers(0, 7))], ["advance", draw(st.sampled_from([0.5, 1, 12]))]]
+        steps = steps[:k] + scen + steps[k:]
     if burst and draw(st.booleans()):
         n = cores + draw(st.integers(1, 3))
-        steps += [["submit", [], None, False, 0, 0] for _ in range(n)]
+        steps += [["submit", [], None, False, 0, 0, False] for _ in range(n)]
         steps += [list(s) for s in draw(st.lists(step_strategy(False, False), max_size=6))]
     return {"cores": cores, "steps": steps}
 
